@@ -133,6 +133,30 @@ ToDialer(s, m) ==
         /\ UNCHANGED <<aph, aid, amsg, seen, deph, aeph, src, churn>>
         /\ Log(Rec("todial", s, m, res, IF res = "accept" THEN m.pkw ELSE ""))
 
+\* Protocol misuse on an established session: the side that waits for its signature message receives
+\*   "garbage"  a packet of the awaited kind whose payload does not decode, or
+\*   another message kind ("securerequest", "secureresponse", "othersig" = the signature message of the opposite direction):
+\* the wait-state check / the decoder refuse it, the connection is closed, no identity is assigned.
+Misuses == {"garbage", "securerequest", "secureresponse", "othersig"}
+Misuse(s, side, what) ==
+  /\ s \in Dialled /\ what \in Misuses
+  /\ IF side = "a" THEN aph[s] = "wait" ELSE dph[s] = "wait"
+  /\ aph' = IF side = "a" THEN [aph EXCEPT ![s] = "closed"] ELSE aph
+  /\ dph' = IF side = "d" THEN [dph EXCEPT ![s] = "closed"] ELSE dph
+  /\ UNCHANGED <<did, aid, deph, aeph, src, amsg, dmsg, seen, churn>>
+  /\ Log(Rec("misuse", s, Msg("", what, "", 0, side, FALSE), IF what = "garbage" THEN "error:decode" ELSE "error:sequence", ""))
+\* ... and on a fresh connection t opened by the attacker, before any key exchange:
+\*   "earlysig"  a SignatureRequest as the very first message (there is no session secret yet),
+\*   "badparam"  a SecureRequest whose ECDH parameter is not a point of the curve,
+\*   "garbage"   an undecodable SecureRequest.
+FreshMisuses == {"earlysig", "badparam", "garbage"}
+FreshMisuse(t, what) ==
+  /\ t \in Replayed /\ aph[t] = "idle" /\ what \in FreshMisuses
+  /\ aph' = [aph EXCEPT ![t] = "closed"] /\ dph' = [dph EXCEPT ![t] = "closed"]
+  /\ UNCHANGED <<did, aid, deph, aeph, src, amsg, dmsg, seen, churn>>
+  /\ Log(Rec("freshmisuse", t, Msg("", what, "", 0, "a", FALSE),
+             CASE what = "earlysig" -> "error:sequence" [] what = "badparam" -> "error:param" [] OTHER -> "error:decode", ""))
+
 \* the environment creates many other peer ids (more than any id cache holds) while connections are
 \* established: nothing about the sessions changes, in particular no assigned identity
 OtherIds ==
@@ -148,6 +172,8 @@ Next == \/ \E s \in Sessions : Can /\ Start(s)
         \/ \E s \in Sessions, m \in Msgs : Can /\ ToAcceptor(s, m)
         \/ \E s \in Sessions, m \in Msgs \cup {ErrMsg} : Can /\ ToDialer(s, m)
         \/ Can /\ OtherIds
+        \/ \E s \in Sessions, side \in {"a", "d"}, what \in Misuses : Can /\ Misuse(s, side, what)
+        \/ \E t \in Sessions, what \in FreshMisuses : Can /\ FreshMisuse(t, what)
 Spec == Init /\ [][Next]_vars
 
 ----------------------------------------------------------------------------
@@ -160,6 +186,10 @@ Bound(m, s, id) == /\ m.pkw = id /\ m.sw = id /\ Secret(m.sc) = Secret(s) /\ ~m.
                    /\ m.pkf \in {"comp", "uncomp"} /\ m.sf \in {"full", "nov", "vflip"}
 BoundToSession == \A s \in Sessions : /\ (aph[s] = "acc" => Bound(amsg[s], s, aid[s]))
                                        /\ (dph[s] = "acc" => Bound(dmsg[s], s, did[s]))
+\* a connection that was closed never gets an identity (misuse, failed verification, refused key exchange)
+ClosedStaysClosed ==
+  [][\A s \in Sessions : /\ (aph[s] = "closed" => aph'[s] = "closed")
+                         /\ (dph[s] = "closed" => dph'[s] = "closed")]_vars
 \* the identity of an accepted connection never changes afterwards
 IdentityFinal ==
   [][\A s \in Sessions : /\ (aph[s] = "acc" => (aph'[s] = "acc" /\ aid'[s] = aid[s]))
